@@ -484,3 +484,60 @@ Proof.
   - intros [u Hu]. exists EResource. now apply (kahn_refuses_any_cycle u).
 Qed.
 End Proof.
+
+(* ---- the existence of a cycle, hence the refusal, does not depend on how the nodes are named ---- *)
+Section Renaming.
+Context {node node' : Type}.
+Variable f : node -> node'.
+
+Definition map_edges (edges : list (node * node)) : list (node' * node') :=
+  map (fun e => (f (fst e), f (snd e))) edges.
+
+Lemma path_map edges u v : path edges u v -> path (map_edges edges) (f u) (f v).
+Proof.
+  induction 1 as [u v He|u w v _ IH1 _ IH2].
+  - apply path_edge. unfold map_edges. apply in_map_iff. exists (u, v). auto.
+  - eapply path_trans; eauto.
+Qed.
+
+Hypothesis f_inj : forall a b, f a = f b -> a = b.
+
+Lemma path_unmap edges x y : path (map_edges edges) x y -> exists a b, x = f a /\ y = f b /\ path edges a b.
+Proof.
+  induction 1 as [x y He|x w y _ [a [b [Hx [Hw H1]]]] _ [c [d [Hw' [Hy H2]]]]].
+  - unfold map_edges in He. apply in_map_iff in He as [[a b] [E Hin]]. simpl in E. injection E as <- <-.
+    exists a, b. repeat split; auto. now apply path_edge.
+  - exists a, d. repeat split; auto. assert (b = c) by (apply f_inj; congruence). subst c.
+    eapply path_trans; eauto.
+Qed.
+
+Theorem cycle_iff_renamed edges : (exists u, path edges u u) <-> (exists u', path (map_edges edges) u' u').
+Proof.
+  split.
+  - intros [u H]. exists (f u). now apply path_map.
+  - intros [u' H]. apply path_unmap in H as [a [b [Ha [Hb H]]]].
+    assert (a = b) by (apply f_inj; congruence). subst b. eauto.
+Qed.
+
+Variable eqb : node -> node -> bool.
+Variable eqb' : node' -> node' -> bool.
+Hypothesis eqb_eq : forall a b, eqb a b = true <-> a = b.
+Hypothesis eqb'_eq : forall a b, eqb' a b = true <-> a = b.
+
+Theorem kahn_refusal_invariant_under_renaming nodes edges :
+  (forall u v, In (u, v) edges -> In u nodes /\ In v nodes) -> NoDup nodes ->
+  ((exists e, kahn eqb nodes edges = Rejected e) <->
+   (exists e, kahn eqb' (map f nodes) (map_edges edges) = Rejected e)).
+Proof.
+  intros Hc Hn.
+  assert (Hc' : forall u v, In (u, v) (map_edges edges) -> In u (map f nodes) /\ In v (map f nodes)).
+  { intros u v H. unfold map_edges in H. apply in_map_iff in H as [[a b] [E Hin]]. simpl in E. injection E as <- <-.
+    destruct (Hc _ _ Hin). split; now apply in_map. }
+  assert (Hn' : NoDup (map f nodes)).
+  { clear Hc Hc'. induction Hn as [|x l Hx _ IH]; simpl; constructor; auto.
+    intro Hi. apply in_map_iff in Hi as [y [E Hy]]. apply f_inj in E. now subst. }
+  rewrite (kahn_refuses_iff_cycle eqb eqb_eq nodes edges Hc Hn).
+  rewrite (kahn_refuses_iff_cycle eqb' eqb'_eq _ _ Hc' Hn').
+  apply cycle_iff_renamed.
+Qed.
+End Renaming.
